@@ -17,6 +17,14 @@ Theorem C13_union_key_sound : forall u1 u2 k, union_key u1 = Some k -> union_key
   (forall v, In v (variants u1) <-> In v (variants u2)) /\ discriminator u1 = discriminator u2.
 Proof. exact union_key_sound. Qed.
 
+(* A union of values (const / enum variants) shares the enum key only when none of its variants is open (a plain
+   integer, an object, a freeform string ...): two value unions under one key list exactly the same wire names and
+   neither accepts anything else. *)
+Theorem C13_value_union_key_sound : forall u1 u2 k, value_union_key u1 = Some k -> value_union_key u2 = Some k ->
+  (forall v, In v u1 \/ In v u2 -> exists x vs, v = VValues (x :: vs))
+  /\ (forall s, In s (wire_names (vu_values u1)) <-> In s (wire_names (vu_values u2))).
+Proof. exact value_union_key_sound. Qed.
+
 (* Canonical-schema identity: two schemas whose canonical forms are equal are the same JSON tree up to the order of
    object members and the order of all-string arrays directly under required / type / enum — nothing else (value
    sets, member types, descriptions, defaults, ...) is identified. *)
@@ -40,6 +48,18 @@ Proof.
   vm_compute. repeat split; try reflexivity; [tauto|]. intros [H|[H|[]]]; discriminate.
 Qed.
 
+(* before fix 286df18 the open variants were skipped: oneOf [const a, const b, integer] shared the type of enum [a, b] *)
+Theorem C13_old_value_union_key_refuted : exists u1 u2 k c,
+  value_union_key_old u1 = Some k /\ value_union_key_old u2 = Some k /\ In (VOpen c) u1 /\ ~ In (VOpen c) u2.
+Proof.
+  exists [VValues [JStr "a"]; VValues [JStr "b"]; VOpen "{""type"":""integer""}"], [VValues [JStr "a"; JStr "b"]],
+         ["a"; "b"], "{""type"":""integer""}".
+  vm_compute. repeat split; try reflexivity; [tauto|]. intros [H|[]]; discriminate.
+Qed.
+
+Check C13_value_union_key_sound : forall u1 u2 k, value_union_key u1 = Some k -> value_union_key u2 = Some k ->
+  (forall v, In v u1 \/ In v u2 -> exists x vs, v = VValues (x :: vs))
+  /\ (forall s, In s (wire_names (vu_values u1)) <-> In s (wire_names (vu_values u2))).
 Check C13_enum_key_sound : forall a b, enum_key a = enum_key b -> forall s, In s (wire_names a) <-> In s (wire_names b).
 Check C13_union_key_sound : forall u1 u2 k, union_key u1 = Some k -> union_key u2 = Some k ->
   (forall v, In v (variants u1) <-> In v (variants u2)) /\ discriminator u1 = discriminator u2.
@@ -53,7 +73,10 @@ Example C13_nonvacuous :
   /\ union_key {| variants := [VRef "B"; VRef "A"]; discriminator := None |}
      = union_key {| variants := [VRef "A"; VRef "B"]; discriminator := None |}
   /\ union_key {| variants := [VRef "A"; VRef "B"]; discriminator := None |} = Some (["A"; "B"], None)
-  /\ union_key {| variants := [VRef "A"; VRef "B"; VInline "s"]; discriminator := None |} = None.
+  /\ union_key {| variants := [VRef "A"; VRef "B"; VInline "s"]; discriminator := None |} = None
+  /\ value_union_key [VValues [JStr "a"]; VValues [JStr "b"]] = value_union_key [VValues [JStr "b"; JStr "a"]]
+  /\ value_union_key [VValues [JStr "a"]; VValues [JStr "b"]] = Some ["a"; "b"]
+  /\ value_union_key [VValues [JStr "a"]; VValues [JStr "b"]; VOpen "i"] = None.
 Proof. vm_compute. repeat split; try reflexivity; discriminate. Qed.
 
 Example C13_canonical_nonvacuous :
@@ -68,3 +91,5 @@ Print Assumptions C13_enum_key_sound.
 Print Assumptions C13_union_key_sound.
 Print Assumptions C13_old_enum_key_refuted.
 Print Assumptions C13_old_union_key_refuted.
+Print Assumptions C13_value_union_key_sound.
+Print Assumptions C13_old_value_union_key_refuted.
